@@ -4,7 +4,11 @@ import "golang.org/x/exp/constraints"
 
 // Min returns the lowest value from the provided parameters.
 func Min[T constraints.Ordered](values ...T) T {
-	var acc T = values[0]
+	var acc T
+	if len(values) == 0 {
+		return acc
+	}
+	acc = values[0]
 
 	for _, v := range values {
 		if v < acc {
@@ -16,7 +20,11 @@ func Min[T constraints.Ordered](values ...T) T {
 
 // Max returns the biggest value from the provided parameters.
 func Max[T constraints.Ordered](values ...T) T {
-	var acc T = values[0]
+	var acc T
+	if len(values) == 0 {
+		return acc
+	}
+	acc = values[0]
 
 	for _, v := range values {
 		if v > acc {
